@@ -633,3 +633,150 @@ def labelled_spec(rng, typ, n_labels, irf_kind):
     if not decay_spectra_ok(spec):
         return labelled_spec(rng, typ, n_labels, irf_kind)
     return spec
+
+
+# ------------------------------------------------------------------------------------------------------
+# full models: datasets with global megacomplexes
+# ------------------------------------------------------------------------------------------------------
+def global_matrices(spec):
+    """{dataset label: (global clp labels, global matrix)} for the datasets with a global model
+    (MatrixProvider.calculate_dataset_matrix(..., global_matrix=True) on the filled dataset models)"""
+    from glotaran.model import fill_item
+    from glotaran.optimization.matrix_provider import MatrixProvider
+
+    model, parameters, _ = build(spec)
+    out = {}
+    for label, d in spec["dataset"]:
+        if not d.get("global_megacomplex"):
+            continue
+        dm = fill_item(model.dataset[label], model, parameters)
+        mc = MatrixProvider.calculate_dataset_matrix(
+            dm, np.array(d["global_axis"], dtype=np.float64), np.array(d["model_axis"], dtype=np.float64), global_matrix=True)
+        out[label] = (list(mc.clp_labels), np.array(mc.matrix, dtype=np.float64))
+    return out
+
+
+def half_specs(spec, dlabel):
+    """(model half, global half) of the full-model dataset `dlabel`: the same dataset without its global megacomplexes,
+    and the *transposed* dataset whose megacomplexes are the global megacomplexes (model axis = the global axis)"""
+    d = dict(spec["dataset"])[dlabel]
+    mh = copy.deepcopy(spec)
+    md = copy.deepcopy(d)
+    md["global_megacomplex"], md["global_megacomplex_scale"] = None, None
+    mh["dataset"] = [[dlabel, md]]
+    gh = copy.deepcopy(spec)
+    gd = copy.deepcopy(d)
+    gd["megacomplex"], gd["megacomplex_scale"] = list(d["global_megacomplex"]), d.get("global_megacomplex_scale")
+    gd["global_megacomplex"], gd["global_megacomplex_scale"] = None, None
+    gd["model_axis"], gd["global_axis"] = list(d["global_axis"]), list(d["model_axis"])
+    gd["model_dim"], gd["global_dim"] = d.get("global_dim", "spectral"), d.get("model_dim", "time")
+    gd["data"] = np.asarray(d["data"], dtype=np.float64).T.tolist()
+    gh["dataset"] = [[dlabel, gd]]
+    return mh, gh
+
+
+def gen_full_spec(rng, kind=None):
+    """one dataset with a global model.  kind 'time-x-spectral': decay-type megacomplexes along time, spectral (+ baseline)
+    global megacomplexes; 'spectral-x-time': spectral megacomplexes along the spectral axis, decay-type global megacomplexes.
+    Labels are partly shared between the megacomplexes of one side (their columns add) and may coincide across the two
+    sides (a clp label equal to a global clp label must not confuse anything)."""
+    for _ in range(200):
+        spec = _gen_full_spec(rng, kind)
+        if decay_spectra_ok(spec):
+            return spec
+    raise RuntimeError("no admissible full-model spec generated")
+
+
+def _gen_full_spec(rng, kind=None):
+    b = SpecBuilder(rng)
+    spec = b.spec
+    kind = kind or rng.choice(["time-x-spectral", "time-x-spectral", "spectral-x-time"])
+    t0, step = rng.choice([-0.5, 0.0]), rng.choice([0.25, 0.375, 0.5])
+    time_axis = [t0 + step * i for i in range(rng.randint(10, 12))]
+    spec_axis = [600.0 + 15.0 * i for i in range(rng.randint(6, 8))]
+    time_first = kind == "time-x-spectral"
+    d = {"megacomplex": [], "megacomplex_scale": None, "global_megacomplex": [], "global_megacomplex_scale": None,
+         "irf": None, "initial_concentration": None,
+         "model_dim": "time" if time_first else "spectral", "global_dim": "spectral" if time_first else "time",
+         "model_axis": time_axis if time_first else spec_axis, "global_axis": spec_axis if time_first else time_axis}
+    # ---- the time side --------------------------------------------------------------------------------
+    irf_kind = rng.choice(["none", "gaussian", "shift", "dispersion"] if time_first else ["none", "gaussian", "multi-gaussian"])
+    d["irf"] = b.irf(irf_kind, len(d["global_axis"]))
+    time_names = []
+    general_comps = None
+    for _k in range(rng.choice([1, 1, 2])):
+        mname = f"m{len(spec['megacomplex']) + 1}"
+        t = rng.choice(["decay-parallel", "decay-sequential", "decay"])
+        if t == "decay":
+            if general_comps is None:
+                general_comps = rng.sample(COMP_POOL, rng.randint(2, 3))
+                d["initial_concentration"] = b.initial_concentration(general_comps, rng.choice(["first", "even", "random"]))
+            b.decay_general(mname, _shuffled(rng, general_comps), rng.choice(["chain", "parallel", "branch"]))
+        else:
+            comps = rng.sample(COMP_POOL, rng.randint(1, 3))
+            spec["megacomplex"].append([mname, {"type": t, "compartments": comps, "rates": [b.par(r, "k") for r in b.distinct(RATE_POOL, len(comps))]}])
+        time_names.append(mname)
+    if rng.random() < 0.3:
+        mname = f"m{len(spec['megacomplex']) + 1}"
+        spec["megacomplex"].append([mname, {"type": "baseline", "dimension": "time"}])
+        time_names.append(mname)
+    # ---- the spectral side -----------------------------------------------------------------------------
+    spectral_names = []
+    comps = rng.sample(COMP_POOL + ["g1"], rng.randint(2, 3))
+    locs = rng.sample(spec_axis, len(spec_axis))
+    for mi in range(rng.choice([1, 2, 2, 3])):
+        mname = f"m{len(spec['megacomplex']) + 1}"
+        mine = comps if mi == 0 else rng.sample(comps, rng.randint(1, len(comps)))
+        shapes = []
+        for c in mine:
+            name = f"sh{len(spec['shape']) + 1}"
+            spec["shape"].append([name, {"type": "gaussian", "amplitude": b.par(rng.choice([1.0, 2.0, 3.0]), "sh"),
+                                         "location": b.par(locs[len(spec['shape']) % len(locs)], "sh"),
+                                         "width": b.par(rng.choice([12.0, 18.0, 25.0]), "sh")}])
+            shapes.append([c, name])
+        spec["megacomplex"].append([mname, {"type": "spectral", "shape": shapes}])
+        spectral_names.append(mname)
+    if rng.random() < 0.3:
+        mname = f"m{len(spec['megacomplex']) + 1}"
+        spec["megacomplex"].append([mname, {"type": "baseline", "dimension": "spectral"}])
+        spectral_names.append(mname)
+    model_names, global_names = (time_names, spectral_names) if time_first else (spectral_names, time_names)
+    d["megacomplex"], d["global_megacomplex"] = model_names, global_names
+    if len(model_names) > 1 and rng.random() < 0.5:
+        d["megacomplex_scale"] = [b.par(rng.choice([1.0, 2.0, 0.5]), "sc") for _ in model_names]
+        spec["fixed"] += d["megacomplex_scale"]
+    if len(global_names) > 1 and rng.random() < 0.6:
+        d["global_megacomplex_scale"] = [b.par(rng.choice([1.0, 2.0, 0.5, 3.0]), "sc") for _ in global_names]
+        spec["fixed"] += d["global_megacomplex_scale"]
+    nm, ng = len(d["model_axis"]), len(d["global_axis"])
+    d["data"] = [[round(rng.uniform(-1, 3), 3) for _ in range(ng)] for _ in range(nm)]
+    spec["dataset"].append(["d1", d])
+    return spec
+
+
+def introspection_spec(rng, typ, n, irf_kind):
+    """one dataset, one megacomplex of type `typ` with `n` components (labelled_spec covers the label-list types)"""
+    if typ in ("damped-oscillation", "pfid", "decay-parallel", "spectral", "decay"):
+        return labelled_spec(rng, typ, n, irf_kind)
+    if typ == "clp-guide":
+        return guide_spec(rng)
+    b = SpecBuilder(rng)
+    spec = b.spec
+    g = [600.0 + 20.0 * i for i in range(3)]
+    t = [-1.0 + 0.375 * i for i in range(2 * n + 8)]
+    d = {"megacomplex": ["m1"], "megacomplex_scale": None, "irf": b.irf(irf_kind, len(g)), "initial_concentration": None,
+         "model_dim": "time", "global_dim": "spectral", "model_axis": t, "global_axis": g}
+    if typ == "decay-sequential":
+        spec["megacomplex"].append(["m1", {"type": typ, "compartments": COMP_POOL[:n], "rates": [b.par(r, "k") for r in b.distinct(RATE_POOL, n)]}])
+    elif typ == "coherent-artifact":
+        spec["megacomplex"].append(["m1", {"type": typ, "order": n}])
+    elif typ == "baseline":
+        spec["megacomplex"].append(["m1", {"type": typ, "dimension": "time"}])
+    else:
+        raise ValueError(typ)
+    if typ in ("coherent-artifact", "baseline"):
+        spec["megacomplex"].append(["m2", {"type": "decay-parallel", "compartments": ["s1"], "rates": [b.par(0.5, "k")]}])
+        d["megacomplex"].append("m2")
+    d["data"] = [[round(rng.uniform(-1, 3), 3) for _ in g] for _ in t]
+    spec["dataset"].append(["d1", d])
+    return spec
